@@ -31,6 +31,7 @@ from dask.dataframe.dask_expr._expr import (
     Expr,
     Index,
     Projection,
+    RenameAxis,
     RenameFrame,
     RenameSeries,
     ResetIndex,
@@ -208,7 +209,8 @@ class ShuffleReduce(Expr):
                 chunked = ResetIndex(self.frame, drop=False, name=self.frame.name)
             else:
                 chunked = ResetIndex(self.frame, drop=False)
-            if split_by == [None]:
+            unnamed_index = split_by == [None]
+            if unnamed_index:
                 split_by = ["index"]
         elif is_index_like(self.frame._meta) or is_series_like(self.frame._meta):
             chunked = ToFrame(self.frame, name=columns[0])
@@ -269,6 +271,10 @@ class ShuffleReduce(Expr):
                 shuffled = Index(SetIndexBlockwise(shuffled, column, True, divs))
                 if column == "__index__":
                     shuffled = RenameSeries(shuffled, self.frame._meta.name)
+
+        if split_by_index and unnamed_index:
+            # "index" is only the label reset_index gave to the unnamed index
+            shuffled = RenameAxis(shuffled, mapper=None)
 
         # Blockwise aggregate
         result = Aggregate(
